@@ -552,12 +552,27 @@ def rule_PO(run: Run) -> RuleResult:
         shown = ""
         for p_ in normal(run.paths(wo, op)):
             flt = [e for e in p_.events if e.kind == "filter" and e.args and e.args[0].key() == EL]
+            known = {k: v for k, v in Frame.atoms(p_.conds).items() if k in (P, C, F)}
             if not flt:
-                if isinstance(p_.ret, Coll) or EL in p_.ret.key():
-                    bad.append("a path returns the inner keys without filtering the pre-set ones")
+                if P not in known and C not in known:
+                    if isinstance(p_.ret, Coll) or EL in p_.ret.key():
+                        bad.append("a path returns the inner keys without filtering the pre-set ones")
+                    continue
+                # an explicit loop: the path's own decisions say whether this key was kept
+                n_filters += 1
+                kept = EL in p_.ret.key()
+                shown = shown or "explicit loop over the inner keys"
+                for pv, cv, fv in itertools.product([False, True], repeat=3):
+                    asg = {P: pv, C: cv, F: fv}
+                    if any(asg[k] != v for k, v in known.items()):
+                        continue
+                    # the path must have decided everything the verdict depends on
+                    if kept and (pv or cv) and not cv and (C in known or P not in known or known.get(P)):
+                        bad.append(f"kept although absent from the caller's options (pre-set={pv}, caller={cv}, force={fv})")
+                    if cv and not (pv and fv) and not kept and C in known and (P in known) and (not pv or F in known):
+                        bad.append(f"dropped although the caller's value decides it (pre-set={pv}, caller={cv}, force={fv})")
                 continue
             n_filters += len(flt)
-            known = {k: v for k, v in Frame.atoms(p_.conds).items() if k in (P, C, F)}
             atoms_: List[str] = []
             for e in flt:
                 bool_atoms(e.target, atoms_)
